@@ -92,6 +92,38 @@ CHECKS = {
         text="(a) all 255 node sets from an 8-name universe (incl. a pair of names whose murmur3 scores tie for every key) x all insertion orders for sets of <=5 (thorough 6) nodes x a structured key corpus: identical across orders and equal to the reference rule; (b) BFS over add/remove histories on 5 nodes to depth 6 (thorough 8), three hash functions (murmur3, constant, parity): placement equals the rule for the node set however reached, removal moves only the removed node's keys, addition moves keys only onto the new node; (c) tie-forcing hashes x all orders; (d) HashClient over simnet: contacted server == rule, 6 pairs of equivalent address spellings place identically, duplicates do not enter the rotation twice; (e) digests in sub-processes under 5-8 PYTHONHASHSEED values; (f) every node owns 0.5x-1.5x its fair share.",
         note="Trusted: vmc/ref/placement.py (independent MurmurHash3 + rendezvous rule). Node sets beyond 8 names and permutations beyond 6 nodes are not enumerated.",
     ),
+    "C14": dict(
+        engine="input-enumerator",
+        level="exploration",
+        technique="bounded-exhaustive enumeration of byte strings x seeds through the real murmur3_32, compared with two independent references (a C transcription of MurmurHash3_x86_32 and a struct-based Python one), published vectors and SMHasher's verification constant",
+        design_ref="DESIGN.md section 3 / C14",
+        text="All strings of length 0..2 over the full byte alphabet (thorough 0..3), lengths 3..5 (thorough 7) over a 6-value alphabet, structured families for every length 0..64 (thorough 256) and around powers of two up to 2^16 (2^17), 36 seeds (0, 2^32-1, 2^31-1, a published one, the 32 one-bit seeds); 25 published vectors and SMHasher's VerificationTest; strings with code points >255: deterministic 32-bit value, equal across calls and across child interpreters with different PYTHONHASHSEED.",
+        note="Trusted: vmc/ref/murmur3_ref.c (compiled by bin/setup or on import) and vmc/ref/murmur3.py; a disagreement between the two references is a harness error, never a violation. 36 of 2^32 seeds; strings >=4 bytes only through reduced alphabets and structured families.",
+    ),
+    "C15": dict(
+        engine="input-enumerator",
+        level="exploration",
+        technique="bounded-exhaustive enumeration of a recursive value grammar x pickle protocols x compression thresholds x codecs through the real serializers, round-trip/type/flag oracle",
+        design_ref="DESIGN.md section 3 / C15",
+        text="A value grammar of depth 2 (thorough 3) - bytes/str/int/bool/None/float leaves incl. sizes straddling each threshold, incompressible data, huge ints, subclasses of native types, containers - x PickleSerde protocols 0..5, CompressedSerde x min_compress_len {0,1,10,400} x {zlib,bz2,lzma,identity}, LegacyWrappingSerde: deserialize(serialize(v)) == v with exactly type(v), transmittable form, flags < 2^16, FLAG_COMPRESSED iff the compressed form was stored, stored form never larger than the uncompressed one.",
+        note="Known finding: a top-level str with a lone surrogate cannot be serialized. Integers beyond CPython's str-conversion limit are outside.",
+    ),
+    "C17": dict(
+        engine="input-enumerator",
+        level="exploration",
+        technique="exhaustive enumeration of the retry decision table (outcome sequences x configurations) on the real RetryingClient against a reference policy",
+        design_ref="DESIGN.md section 3 / C17",
+        text="attempts 1..3 (thorough 1..5) x all 256 pairs of subsets of a 4-class exception hierarchy for retry_for / do_not_retry_for (81 disjoint pairs valid, 175 overlapping must be rejected) x None/tuple/list/set spellings x retry_delay {0, 0.5} x every outcome sequence up to the stopping point; number and arguments of inner calls, number and argument of sleeps (never after the last attempt), identity of the returned object / raised exception; invalid configurations (attempts<1, non-exception members) rejected at construction.",
+        note="The reference policy is written over an explicit ancestor table; sleep is observed through the module attribute `sleep` of pymemcache.client.retrying.",
+    ),
+    "C18": dict(
+        engine="input-enumerator",
+        level="exploration",
+        technique="exhaustive enumeration of hit/miss assignments x operations x argument combinations x read-then-write histories on the real FallbackClient over scripted recorder caches and over real Clients on simnet",
+        design_ref="DESIGN.md section 3 / C18",
+        text="1..4 (thorough 5) caches x every assignment of hit kinds (incl. falsy hits) / miss x every read in positional and keyword style and every key-collection form: caches consulted in order, first hit returned, nothing consulted after it; every mutator x every combination of given/omitted arguments: exactly one call on cache 0 with the caller's own arguments, never a fallback cache; every read followed by every mutator on one long-lived FallbackClient; the same with real Clients over the reference server.",
+        note=TB + "What FallbackClient returns when every cache misses, and its close/stats/quit, are outside the statement.",
+    ),
 }
 
 PENDING = "check not built yet in this session; planned engine and oracle are in DESIGN.md section 3"
@@ -102,7 +134,7 @@ ENGINES = [
      "serves_properties": ["C05", "C09", "C11", "C13"],
      "kind_free_text": "explicit-state BFS: a state is the event history reaching it, rebuilt on fresh real objects; canonical form de-duplicates; every transition runs the implementation"},
     {"name": "input-enumerator", "path": "checks/c02.py, checks/c20.py (and c14, c15, c17, c18)",
-     "serves_properties": ["C02", "C20"],
+     "serves_properties": ["C02", "C14", "C15", "C17", "C18", "C20"],
      "kind_free_text": "nested loops over a finite, explicitly listed input space; the real function is called once per element and compared with an independent reference"},
     {"name": "segmentation-enumerator", "path": "checks/c03.py", "serves_properties": ["C03"],
      "kind_free_text": "bounded-exhaustive enumeration of recv() segmentations of reference reply streams"},
